@@ -31,9 +31,25 @@ const EXTREME_TIMEOUTS: [u32; 12] = [1, 2, 59, 60, 61, 119, 120, 121, 122, 300, 
 const KEYS: [&str; 3] = ["alpha", "beta", "gamma"];
 
 fn node_cfg(rng: &mut impl Rng, mode: Mode, flavour: u64, focus: &str, idx: usize) -> Config {
+    node_cfg_dev(rng, mode, flavour, focus, idx, false)
+}
+
+/// `tap`: the node reads Ethernet frames (device type tap); mode "normal" then means a learning switch, "router" routes
+/// by MAC claims
+fn node_cfg_dev(rng: &mut impl Rng, mode: Mode, flavour: u64, focus: &str, idx: usize, tap: bool) -> Config {
     let mut c = base_config(mode);
-    if mode == Mode::Router {
-        c.claims = pick_claims(rng);
+    c.device_type = if tap { crate::device::Type::Tap } else { crate::device::Type::Tun };
+    if mode == Mode::Router || (mode == Mode::Normal && !tap) {
+        c.claims = if tap {
+            // MAC ranges: the station behind this node, sometimes a whole block
+            let mut v = vec![format!("02:00:00:00:00:{:02x}/48", 10 + idx)];
+            if rng.gen_bool(0.3) {
+                v.push("02:00:00:00:00:00/40".into());
+            }
+            v
+        } else {
+            pick_claims(rng)
+        };
     }
     c.peer_timeout = if focus == "C15" {
         EXTREME_TIMEOUTS[rng.gen_range(0..EXTREME_TIMEOUTS.len())]
@@ -84,14 +100,18 @@ fn frame_for<P: Protocol>(router: bool, rng: &mut impl Rng, i: usize) -> Vec<u8>
 }
 
 fn one<P: Protocol>(run: u64, stream: u64, mode: Mode, steps: u64, focus: &str) -> Vec<String> {
+    one_dev::<P>(run, stream, mode, steps, focus, mode != Mode::Router)
+}
+
+fn one_dev<P: Protocol>(run: u64, stream: u64, mode: Mode, steps: u64, focus: &str, tap: bool) -> Vec<String> {
     let mut rng = rng(stream);
     let mut sim: Sim<P> = Sim::new(stream);
     sim.trace_on();
     sim.budget = 40;
-    let router = mode == Mode::Router;
+    let router = !tap; // IP packets on tun devices, Ethernet frames on tap devices
     let n = if focus == "C14" { 3 + (run % 4) as usize } else { 2 + (run % 3) as usize };
     for k in 0..n {
-        let c = node_cfg(&mut rng, mode, run, focus, k);
+        let c = node_cfg_dev(&mut rng, mode, run, focus, k, tap);
         for a in &c.advertise_addresses {
             sim.alias.insert(a.parse().unwrap(), k as u16 + 1);
         }
@@ -201,7 +221,7 @@ fn one<P: Protocol>(run: u64, stream: u64, mode: Mode, steps: u64, focus: &str) 
             sim.deliver_due();
         } else if x < 66 {
             let i = rng.gen_range(0..n);
-            let mut c = node_cfg(&mut rng, mode, run + 1, focus, i);
+            let mut c = node_cfg_dev(&mut rng, mode, run + 1, focus, i, tap);
             c.advertise_addresses = sim.nodes[i].cfg.advertise_addresses.clone();
             sim.restart(i, Some(&c));
             let j = (i + 1 + rng.gen_range(0..n - 1)) % n;
@@ -284,15 +304,23 @@ pub fn run(tier: &str, out_path: &str, first: u64, count: u64, focus: &str) -> V
     let ids: Vec<u64> = (first..first + runs).collect();
     let results = parallel_map(&ids, |_, k| {
         let stream = 77000 + *k + seed() * 1_000_000;
+        // 0 router/tun, 1 switch/tap, 2 hub/tap, 3 normal/tap (a learning switch), 4 normal/tun (routes by claims),
+        // 5 router/tap (MAC claims, learns nothing), 6 switch/tun, 7 hub/tun
         let m = match focus {
-            "C11" => [0, 0, 0, 1, 0, 2][(*k % 6) as usize],
-            "C13" => [1, 1, 1, 0, 1, 2][(*k % 6) as usize],
+            "C11" => [0, 0, 4, 1, 5, 2, 0, 7][(*k % 8) as usize],
+            "C13" => [1, 3, 1, 5, 2, 0, 6, 3][(*k % 8) as usize],
+            "C10" => [0, 1, 2, 3, 4, 5, 6, 7][(*k % 8) as usize],
             _ => *k % 3,
         };
         match m {
             0 => one::<Packet>(*k, stream, Mode::Router, steps, focus),
             1 => one::<Frame>(*k, stream, Mode::Switch, steps, focus),
-            _ => one::<Frame>(*k, stream, Mode::Hub, steps, focus),
+            2 => one::<Frame>(*k, stream, Mode::Hub, steps, focus),
+            3 => one_dev::<Frame>(*k, stream, Mode::Normal, steps, focus, true),
+            4 => one_dev::<Packet>(*k, stream, Mode::Normal, steps, focus, false),
+            5 => one_dev::<Frame>(*k, stream, Mode::Router, steps, focus, true),
+            6 => one_dev::<Packet>(*k, stream, Mode::Switch, steps, focus, false),
+            _ => one_dev::<Packet>(*k, stream, Mode::Hub, steps, focus, false),
         }
     });
     let mut lines = 0usize;
